@@ -74,14 +74,15 @@ def _cbmc_watchdog(stop):
                     continue
                 try:
                     with open("/proc/%s/comm" % pid) as f:
-                        if f.read().strip() not in ("cbmc", "kani-driver"):
+                        comm = f.read().strip()
+                        if comm not in ("cbmc", "kani-driver"):
                             continue     # (kani-driver keeps the solver's JSON output of a whole batch in memory: seen at 29 GB)
                     with open("/proc/%s/status" % pid) as f:
                         m = re.search(r"VmRSS:\s+(\d+) kB", f.read())
                     if m and int(m.group(1)) > lim_kb:
-                        log("[kani] cbmc %s exceeds %d GB resident: killed (its harness becomes undecided)" % (pid, MEM_LIMIT_GB))
+                        log("[kani] %s %s exceeds %d GB resident: killed (its harness / batch becomes undecided)" % (comm, pid, MEM_LIMIT_GB))
                         os.kill(int(pid), 9)
-                    elif m and int(m.group(1)) > biggest[0]:
+                    elif m and comm == "cbmc" and int(m.group(1)) > biggest[0]:
                         biggest = (int(m.group(1)), int(pid))
                 except (OSError, ValueError):
                     continue
